@@ -9,7 +9,7 @@ import warnings
 def _state(p):
     return {"baseuri": p.baseuri, "lang": p.lang, "nbase": len(p.basestack), "nlang": len(p.langstack),
             "depth": p.depth, "nelem": len(p.elementstack), "inentry": p.inentry, "nentries": len(p.entries),
-            "incontent": p.incontent}
+            "incontent": p.incontent, "resolve": bool(p.resolve_relative_uris), "sanitize": bool(p.sanitize_html)}
 
 
 def make_tracer(base_cls, log):
@@ -58,6 +58,18 @@ def make_tracer(base_cls, log):
             log.append({"k": "entityref", "ref": ref, "pid": id(self)})
             return super().handle_entityref(ref)
 
+        # stage 2 (text constructs): what the post-processing steps of pop() answer -- parameters of the model
+        @staticmethod
+        def looks_like_html(s):
+            r = base_cls.looks_like_html(s)
+            log.append({"k": "looks", "result": bool(r)})
+            return r
+
+        def decode_entities(self, element, data):
+            r = super().decode_entities(element, data)
+            log.append({"k": "decode", "element": element, "data": data, "result": r})
+            return r
+
         def track_namespace(self, prefix, uri):
             log.append({"k": "ns", "prefix": prefix, "uri": uri, "in_start": self._in_start, "pid": id(self)})
             return super().track_namespace(prefix, uri)
@@ -86,11 +98,38 @@ def traced_parse(doc, headers=None, loose=False, **kw):
         r = real_pd(value)
         log.append({"k": "date", "value": value, "result": tuple(r) if r else None})
         return r
+    real_res, real_san, real_b64 = mixin.resolve_relative_uris, mixin.sanitize_html, mixin.base64
+
+    def res_spy(*a, **k):
+        r = real_res(*a, **k)
+        log.append({"k": "resolve", "result": r})
+        return r
+
+    def san_spy(*a, **k):
+        r = real_san(*a, **k)
+        log.append({"k": "sanitize", "result": r})
+        return r
+
+    class B64:
+        @staticmethod
+        def decodebytes(b):
+            try:
+                r = real_b64.decodebytes(b)
+            except Exception:
+                log.append({"k": "b64", "result": None})
+                raise
+            try:
+                log.append({"k": "b64", "result": r.decode("utf8")})
+            except UnicodeDecodeError:
+                log.append({"k": "b64", "result": None})
+            return r
     try:
         if loose:
             api._XML_AVAILABLE = False
         with mock.patch.object(api, "StrictFeedParser", S), mock.patch.object(api, "LooseFeedParser", L), \
-                mock.patch.object(mixin, "_urljoin", join_spy), mock.patch.object(nsbase, "_parse_date", date_spy), warnings.catch_warnings():
+                mock.patch.object(mixin, "_urljoin", join_spy), mock.patch.object(nsbase, "_parse_date", date_spy), \
+                mock.patch.object(mixin, "resolve_relative_uris", res_spy), mock.patch.object(mixin, "sanitize_html", san_spy), \
+                mock.patch.object(mixin, "base64", B64), warnings.catch_warnings():
             warnings.simplefilter("ignore")
             try:
                 r = feedparser.parse(doc, response_headers=headers, **kw)
